@@ -344,7 +344,7 @@ func run(r *mon.Run) {
 	}
 	nRandom := 1500
 	if r.Thorough {
-		nRandom = 30000
+		nRandom = 150000
 	}
 	g0 := r.Rand("ids", 0)
 	idA := gen.NewIdentity(g0, gen.Curves[0], "example.com", 2)
